@@ -155,12 +155,12 @@ func TestVerifC07Ocsp(t *testing.T) {
 		return out
 	}
 	fams := []*vC07Fam{
-		{name: "ocsp-nested-sequences", dec: "ocsp.response", build: nest},
-		{name: "ocsp-long-octets", dec: "ocsp.response", build: func(n int) []byte {
+		{name: "ocsp-nested-sequences", dec: "ocsp.response", build: nest, max: 65536},
+		{name: "ocsp-long-octets", dec: "ocsp.response", max: 65536, build: func(n int) []byte {
 			l := n - 4
 			return append([]byte{0x30, 0x82, byte(l >> 8), byte(l)}, make([]byte, l)...)
 		}},
-		{name: "ocsp-request-many-entries", dec: "ocsp.request", build: func(n int) []byte {
+		{name: "ocsp-request-many-entries", dec: "ocsp.request", max: 65536, build: func(n int) []byte {
 			one := vC07Hex(ocspRequestHex)
 			// 30 L (30 L (30 L ( entry* ))): repeat the innermost entry
 			entry := one[6:]
